@@ -572,6 +572,7 @@ func famCompare(dir string, seed int64, tier string) {
 				rep.Evaluations++
 				if err != nil || s != 0 {
 					rep.violate("C06", "zero-for-identical-streams", fmt.Sprintf("Compare of one token sequence delivered by two producers = %s (producer on side %d)", signStr(s, err), order), "producer="+p.name)
+					rep.violate("C07", "routes-disagree", fmt.Sprintf("the token route over one token sequence delivered by two producers gives %s (producer on side %d); the byte routes over its encoding give 0", signStr(s, err), order), "producer="+p.name)
 				}
 			}
 			// against a list that differs in one place: the sign of the documented order
